@@ -94,7 +94,7 @@ Definition folder_of (nfold : N) (s : fispec) : N :=
 Definition dec_fi (nfold : N) (s : fispec) : cfile :=
   mkFi (s_name s) (s_ulen s) (s_attr s) (s_uoff s) (folder_of nfold s)
        (N.shiftr (s_time s) 11) (N.land (N.shiftr (s_time s) 5) 63) (N.land (N.shiftl (s_time s) 1) 62)
-       (N.shiftr (s_date s) 9 + 1980) (N.land (N.shiftr (s_date s) 5) 15) (N.land (s_date s) 31).
+       (N.shiftr (s_date s) 9 + 1980) (N.land (N.shiftr (s_date s) 5) 15) (N.land (s_date s) 31) (s_fidx s).
 Definition wf_fi (nfold : N) (s : fispec) : Prop :=
   nonul (s_name s) /\ len (s_name s) < 256 /\ s_name s <> [] /\ (s_fidx s < nfold \/ cffileCONTINUED_FROM_PREV <= s_fidx s) /\ s_fidx s < 65536.
 Definition merge1 (fs : list cfolder) (s : fispec) : list cfolder :=
